@@ -84,6 +84,10 @@ class Check(PropertyCheck):
         S.append(("compress-two", scn({"a": ("L", 10), "b": ("L", 11)}, {10: reg(text), 11: reg(text2, 0o600)}, ["a", "b"], [])))
         S.append(("compress-setuid", scn({"a": ("L", 10)}, {10: reg(text, 0o4755)}, ["a"], [])))
         S.append(("compress-stdout", scn({"a": ("L", 10)}, {10: reg(text)}, ["a"], ["-c"])))
+        # -f follows a symbolic link operand; here the output name `l` is not on the way to the file, so this is safe with and
+        # without the same-file check of the repaired source (the unsafe variant is the force-symlink finding probe below)
+        S.append(("decompress-f-symlink", scn({"real.bz2": ("L", 10), "l.bz2": ("S", "real.bz2"), "l": ("L", 11)},
+                                              {10: reg(z), 11: reg(b"old output")}, ["l.bz2"], ["-d", "-f"])))
         if self.tier != "quick":
             big = bytes(r.below(256) for _ in range(300000)) + text * 300
             zb = self.codec.get("C", big)[1]
@@ -411,7 +415,7 @@ class Check(PropertyCheck):
         return out
 
     def search(self):
-        # direct() already evaluates the predicate on every enumerated plan of this run
+        # direct() already evaluates the predicate on every enumerated plan of this run; nothing concrete beyond that
         return []
 
     def replay(self, path):
